@@ -355,6 +355,7 @@ func LoopbackIdP() *IdP {
 
 // AuthService is a scripted rdpgw-auth: the real NTLM verifier plus a password table in place of PAM.
 type AuthService struct {
+	NullOK map[string]bool
 	auth.UnimplementedAuthenticateServer
 	mu     sync.Mutex
 	Users  map[string]string
@@ -407,7 +408,8 @@ func (a *AuthService) Authenticate(ctx context.Context, m *auth.UserPass) (*auth
 	defer a.mu.Unlock()
 	a.Calls = append(a.Calls, "basic:"+m.Username)
 	pw, ok := a.Users[m.Username]
-	return &auth.AuthResponse{Authenticated: ok && pw != "" && pw == m.Password}, nil
+	// NullOK: accounts whose empty password the backend confirms (PAM nullok); that is the backend's decision
+	return &auth.AuthResponse{Authenticated: ok && pw != "" && pw == m.Password || a.NullOK[m.Username] && m.Password == ""}, nil
 }
 
 func (a *AuthService) NTLM(ctx context.Context, m *auth.NtlmRequest) (resp *auth.NtlmResponse, err error) {
